@@ -53,6 +53,9 @@ def gen_chan_scenario(seed, i):
         for f in ("type", "state", "tag", "key", "uses"):
             if rng.chance(1, 2):
                 o[f] = rng.pick(PATS[f])
+        if rng.chance(1, 2):
+            # a client that only listens to some kinds (process events only, messages only, …)
+            o["handlers"] = rng.pick([["start", "complete", "error"], ["message"], ["complete"], ["message", "start"], ["error", "start"]])
         ops.append(["chan_open", o])
         timeline.append((len(ops) - 1, "open", cid, o))
 
@@ -76,6 +79,15 @@ def gen_chan_scenario(seed, i):
         else:
             close_chan()
     ops.append(["runall"])
+    # whatever is open or closed by now: a second process starts, and both are answered to their end (start / complete / error events included)
+    if rng.chance(1, 2):
+        close_chan()
+    ops.append(["start", "mc", {"pid": "p2"}])
+    ops.append(["runall"])
+    for _ in range(5):
+        for pid in ("p1", "p2"):
+            ops.append(["act", "next" if not rng.chance(1, 8) else "error", pid, {"open": 0}, {"ecode": "e1"}])
+            ops.append(["runall"])
     return {"id": f"ch-{seed}-{i}", "config": {"keep": True}, "models": [WF], "ops": ops}, timeline
 
 
@@ -128,18 +140,24 @@ def run(ctx):
             if i in tlmap:
                 _, act, cid, o = tlmap[i]
                 if act == "open":
-                    open_opts[cid] = o
+                    # one handler map per kind: opening an id registers (replaces) the handlers of the kinds this client listens to, and leaves the
+                    # handlers a former client registered under the same id for the other kinds in place, until the id is closed
+                    for kind in (o.get("handlers") or ["message", "start", "complete", "error"]):
+                        open_opts[(cid, kind)] = o
                 else:
-                    open_opts.pop(cid, None)
+                    for kind in ("message", "start", "complete", "error"):
+                        open_opts.pop((cid, kind), None)
             obs = by_op.get(i, [])
             msgs = [o for o in obs if o.get("k") == "dlv" and o.get("chan") == "default"]
-            if msgs:
-                for cid, o in open_opts.items():
-                    expect.append((i, cid, dict(o), msgs))
+            pevs = [o for o in obs if o.get("k") == "pev" and o.get("chan") == "default"]
+            if msgs or pevs:
+                for (cid, kind), o in open_opts.items():
+                    expect.append((i, cid, dict(o, handlers=[kind]), msgs if kind == "message" else [], [e for e in pevs if e["ev"] == kind]))
         per_scenario.append(expect)
-        for (i, cid, o, msgs) in expect:
+        for (i, cid, o, msgs, pevs) in expect:
             opts = {f: o.get(f, "*") for f in ("type", "state", "tag", "key", "uses")}
-            reqs.append({"cmd": "c18.chan", "opts": opts, "msgs": [fields_of(m) for m in msgs]})
+            # process events go through the same filter as messages (the message of the root task)
+            reqs.append({"cmd": "c18.chan", "opts": opts, "msgs": [fields_of(m) for m in msgs] + [fields_of(e) for e in pevs]})
     answers = ctx.driver(reqs, tag="dc")
     k = 0
     stats = {"channels_opened": 0, "selected": 0, "rejected": 0, "glob_pairs": len(pairs), "glob_valid": nvalid, "glob_match": nmatch}
@@ -155,14 +173,23 @@ def run(ctx):
         failed = False
         covered = set()
         sel_n = rej_n = 0
-        for (i, cid, o, msgs) in expect:
+        for (i, cid, o, msgs, pevs) in expect:
             an = answers[k]
             k += 1
             if failed or not isinstance(an, dict) or not an.get("valid"):
                 continue
-            want = [m["m"] for m, s in zip(msgs, an["select"]) if s]
-            got = [x["m"] for x in by_op.get(i, []) if x.get("k") == "dlv" and x.get("chan") == cid]
-            covered.add((i, cid))
+            hs = o.get("handlers") or ["message", "start", "complete", "error"]
+            want = [m["m"] for m, s in zip(msgs, an["select"]) if s] if "message" in hs else []
+            got = [x["m"] for x in by_op.get(i, []) if x.get("k") == "dlv" and x.get("chan") == cid] if "message" in hs else []
+            # process events: one delivery per selected event of a kind the channel listens to
+            wantp = sorted((e["ev"], e["pid"]) for e, s in zip(pevs, an["select"][len(msgs):]) if s and e["ev"] in hs)
+            gotp = sorted((x["ev"], x["pid"]) for x in by_op.get(i, []) if x.get("k") == "pev" and x.get("chan") == cid and x["ev"] in hs)
+            if gotp != wantp and not failed:
+                ctx.violation("C18|process-events", f"channel {cid} {o} at op {i}: process events delivered {gotp}, selected {wantp}",
+                              {"scenario": sc, "op": i, "chan": cid, "opts": o})
+                failed = True
+                continue
+            covered.add((i, cid, hs[0]))
             sel_n += len(want)
             rej_n += len(msgs) - len(want)
             if sorted(got) != sorted(want):
@@ -177,7 +204,7 @@ def run(ctx):
         if not failed:
             for i, obs in by_op.items():
                 for x in obs:
-                    if x.get("k") == "dlv" and x.get("chan") not in ("default",) and (i, x.get("chan")) not in covered:
+                    if x.get("k") in ("dlv", "pev") and x.get("chan") not in ("default",) and (i, x.get("chan"), "message" if x.get("k") == "dlv" else x.get("ev")) not in covered:
                         ctx.violation("C18|delivery-to-closed-channel", f"channel {x.get('chan')} received {x.get('m')} at op {i} while closed",
                                       {"scenario": sc, "op": i})
                         failed = True
